@@ -11,12 +11,14 @@
      XMgo        maintenance: from before stop() to before CompareAndDelete, or CompareAndDelete + counters
      XFsnap k t  the run() goroutine of the group stored under k: timer tick at t, snapshot, pipeline called
      XFdone k ok the pipeline returned: DeleteIfNotModified(destroyIfEmpty), destroyed check
+     XNop        nothing (virtual time passed without any goroutine reaching a yield point); carries an observation
    Observation: Dispatcher.Groups() (key, alerts) for every map entry with at least one alert, the
    aggregation-groups gauge (aggrGroupsNum) and the limit-reached counter. *)
 From AM Require Export Base.Prelude Model.DispatchConc.
 
 Inductive mstep :=
-| XW (w : nat) | XMvisit (k : Z * Z) | XMgo | XFsnap (k : Z * Z) (now : Z) | XFdone (k : Z * Z) (ok : bool).
+| XW (w : nat) | XMvisit (k : Z * Z) | XMgo | XFsnap (k : Z * Z) (now : Z) | XFdone (k : Z * Z) (ok : bool)
+| XNop.
 
 Record obs := mkObs { o_view : list ((Z * Z) * list upd); o_num : Z; o_limited : nat }.
 
@@ -69,6 +71,7 @@ Definition x_step (s : cst) (x : mstep) : cst :=
       end
   | XFsnap k now => match c_map s !! k with Some g => f_step g now true s | None => s end
   | XFdone k ok => match c_map s !! k with Some g => f_step g 0 ok s | None => s end
+  | XNop => s
   end.
 End macro.
 
